@@ -6,13 +6,13 @@ cd $WT || exit 9
 git checkout -q -- . ; git clean -fdq -e OUT -e target
 mkdir -p $(dirname $DEST); cp /verif/$D/demo.rs $DEST
 export CARGO_NET_OFFLINE=true
-cargo test --offline -j 12 -p $CR --test $T > $TD/sc_clean.txt 2>&1; RC_CLEAN=$?
+cargo test --offline -j ${SEED_J:-12} -p $CR --test $T > $TD/sc_clean.txt 2>&1; RC_CLEAN=$?
 git apply /verif/$D/patch.diff || { echo "patch does not apply"; exit 8; }
-cargo test --offline -j 12 -p $CR --test $T > $TD/sc_mut.txt 2>&1; RC_MUT=$?
+cargo test --offline -j ${SEED_J:-12} -p $CR --test $T > $TD/sc_mut.txt 2>&1; RC_MUT=$?
 rm -f $DEST; rmdir $(dirname $DEST) 2>/dev/null
 SUITE=""
 for c in "$@"; do
-  cargo test --offline -j 12 -p $c > $TD/sc_suite_$c.txt 2>&1; rc=$?
+  cargo test --offline -j ${SEED_J:-12} -p $c > $TD/sc_suite_$c.txt 2>&1; rc=$?
   SUITE="$SUITE $c:rc=$rc:$(grep -E '^test result' $TD/sc_suite_$c.txt | awk '{p+=$4; f+=$6} END {print p"p/"f"f"}')"
 done
 git checkout -q -- . ; git clean -fdq -e OUT -e target
